@@ -94,29 +94,36 @@ impl Drop for Mask {
     }
 }
 
-/// Judges the counter delta of one direct primitive call.
+/// Judges the counter delta of one direct primitive call: nothing compiled
+/// for an ISA other than the best reported one may run, and the primitive
+/// itself must be served by the best reported ISA. (Other primitives' entry
+/// points on the best ISA may be hit as well - an engine is free to build one
+/// primitive from another.)
 fn judge_exact(out: &mut CaseOut, mask: usize, prim: usize, d: [[u64; 4]; 3], what: &str) {
     let b = best(mask);
     for isa in 0..3 {
         for p in 0..4 {
-            let want = u64::from(Some(isa) == b && p == prim);
-            if d[isa][p] != want {
+            if d[isa][p] > 0 && Some(isa) != b {
                 let reported = mask & 1 << isa != 0 && real(isa);
-                let sig = if d[isa][p] > 0 && !reported {
-                    format!("C14:runs-unreported-isa:{}:{}", ISAS[isa], PRIMS[p])
-                } else if d[isa][p] > 0 && Some(isa) != b {
+                let sig = if reported {
                     format!("C14:not-the-best-isa:{}:{}", ISAS[isa], PRIMS[p])
-                } else if d[isa][p] == 0 {
-                    format!("C14:best-isa-not-used:{}:{}", ISAS[isa], PRIMS[p])
                 } else {
-                    format!("C14:unexpected-trace:{}:{}", ISAS[isa], PRIMS[p])
+                    format!("C14:runs-unreported-isa:{}:{}", ISAS[isa], PRIMS[p])
                 };
                 out.violate(
                     sig,
-                    format!("{what} under reported set {}: counter[{}][{}] moved by {}, expected {want}; full delta {d:?}", mask_name(mask), ISAS[isa], PRIMS[p], d[isa][p]),
+                    format!("{what} under reported set {}: counter[{}][{}] moved by {}; full delta {d:?}", mask_name(mask), ISAS[isa], PRIMS[p], d[isa][p]),
                 );
                 return;
             }
+        }
+    }
+    if let Some(bi) = b {
+        if d[bi][prim] == 0 {
+            out.violate(
+                format!("C14:best-isa-not-used:{}:{}", ISAS[bi], PRIMS[prim]),
+                format!("{what} under reported set {}: the {} entry point of the best reported ISA {} was never entered; full delta {d:?}", mask_name(mask), PRIMS[prim], ISAS[bi]),
+            );
         }
     }
 }
